@@ -777,6 +777,10 @@ class HeadInterp(object):
         try:
             try:
                 self.block(loop.body)
+                if self.popped[self.A] or self.popped[self.B]:
+                    # reaching the end of the loop body is the next iteration, like an explicit continue (the view's canonical form of
+                    # 'if c: A; continue; rest' is 'if c: A else: rest')
+                    return ("continue", self.popped[self.A], self.popped[self.B])
                 raise Unknown("loop body falls through without consuming anything")
             except _Stop as s:
                 if s.outcome[0] != "break":
